@@ -172,12 +172,15 @@ impl Client {
                 let error_msg = e.to_string();
                 let error = AnyTlsError::Protocol(error_msg.clone());
                 stream.close_with_error(error).await;
+                // Only the stream failed: the session stays usable for later requests
+                self.release_session(session).await;
                 Err(AnyTlsError::Protocol(error_msg))
             }
             Ok(Err(_)) => {
                 tracing::error!("[Client] SYNACK channel closed for stream {}", stream_id);
                 let error = AnyTlsError::Protocol("SYNACK channel closed".into());
                 stream.close_with_error(error).await;
+                self.release_session(session).await;
                 Err(AnyTlsError::Protocol("SYNACK channel closed".into()))
             }
             Err(_) => {
@@ -190,9 +193,16 @@ impl Client {
                     format!("SYNACK timeout after {}s", DEFAULT_SYNACK_TIMEOUT.as_secs());
                 let error = AnyTlsError::Protocol(error_msg.clone());
                 stream.close_with_error(error).await;
+                self.release_session(session).await;
                 Err(AnyTlsError::Protocol(error_msg))
             }
         }
+    }
+
+    /// Hand a session back once a request that used it has finished, so that later requests reuse it instead of
+    /// dialling a new connection (a closed session is not kept)
+    pub async fn release_session(&self, session: Arc<Session>) {
+        self.session_pool.add_idle_session(session).await;
     }
 
     /// Create a new stream by establishing or reusing a session
